@@ -411,8 +411,12 @@ impl World {
             return;
         };
         self.bump("delete.checked");
-        // pinned at this instant?
-        if self.registry.is_pinned(path) {
+        // pinned at this instant?  (the harness's own record of live guards, not the registry's word)
+        let held = self.guards.values().any(|(_, ps, _, _)| ps.contains(&p));
+        if held != self.registry.is_pinned(path) {
+            self.violate("", format!("pin registry disagrees with the live pin guards about chunk {} (guards: {}, registry: {})", p, held, !held));
+        }
+        if held {
             let cyc = self.cycle_no;
             let all_in_window = self
                 .guards
@@ -757,7 +761,18 @@ async fn run_case(case: &Case) -> Outcome {
                     Some((g, ps, _, _)) => {
                         let obj = w.objects_now().await;
                         let miss: Vec<u32> = ps.iter().copied().filter(|p| !obj.contains(p)).collect();
+                        for p in &ps {
+                            if !w.registry.is_pinned(&pname(*p)) {
+                                w.violate("", format!("chunk {} is not pinned although query {} still holds its guard", p, q));
+                            }
+                        }
                         drop(g);
+                        for p in &ps {
+                            let held = w.guards.values().any(|(_, qs, _, _)| qs.contains(p));
+                            if w.registry.is_pinned(&pname(*p)) != held {
+                                w.violate("", format!("after query {} dropped its guard the registry says pinned={} for chunk {}, live guards say {}", q, !held, p, held));
+                            }
+                        }
                         format!("miss={}", set_text(miss))
                     }
                     None => "miss=".to_string(),
